@@ -292,6 +292,10 @@ class UnitInv(object):
     def __truediv__(self, o):
         if _is_num(o):
             return UnitInv(self.scale / _frac(o))
+        if isinstance(o, symnp.SArr):
+            return symnp.SArr(symnp._map(lambda c: self.__truediv__(c), o.a), o.dt)
+        if isinstance(o, (SReal, SInt)) and not isinstance(o, SAng):
+            return SReal(z3.RealVal(self.scale) * 180 / PI) / o
         return NotImplemented
 
 
@@ -549,9 +553,17 @@ def arctan(u):
     u = _as_real(u)
     if _is_num(u):
         return const_angle(Fr(math.degrees(math.atan(u))), 0)
+    cx = symx.Ctx.current
+    mk = ("trig_atan_memo", u.t.get_id())
+    hit = cx.memo.get(mk)
+    if hit is not None and hit[0].eq(u.t):
+        return hit[1]           # a function: the same argument gives the same angle
+    n_ob = len(cx.obligs)
     rho = symx.sym_sqrt(1 + u * u)
+    del cx.obligs[n_ob:]        # 1 + u^2 > 0
     r, v = _new_inverse("atan", u / rho, 1 / rho, -90, 90,
                         lambda v: [v > -90, v < 90, z3.Implies(u.t > 0, v > 0), z3.Implies(u.t < 0, v < 0), z3.Implies(u.t == 0, v == 0)])
+    cx.memo[mk] = (u.t, r)
     return r
 
 
@@ -563,10 +575,17 @@ def arctan2(y, x):
     y = y if isinstance(y, SReal) else SReal(symx.ratval(y))
     x = x if isinstance(x, SReal) else SReal(symx.ratval(x))
     cx = symx.Ctx.current
+    mk = ("trig_atan2_memo", y.t.get_id(), x.t.get_id())
+    hit = cx.memo.get(mk)
+    if hit is not None and hit[0].eq(y.t) and hit[1].eq(x.t):
+        st().log.append(hit[2])
+        cx.obligation(hit[2][5].t > 0, "arctan2(0, 0): direction undefined (pole)")
+        return hit[2][3]        # a function: the same arguments give the same angle
+    n_ob = len(cx.obligs)
     rho = symx.sym_sqrt(x * x + y * y)
+    del cx.obligs[n_ob:]        # the radicand is a sum of two squares by construction
     cx.obligation(rho.t > 0, "arctan2(0, 0): direction undefined (pole)")
     S = st()
-    S.log.append(("arctan2", y, x))
     # the pair is (y, x)/rho: kept as fresh (s, c) with s*rho = y, c*rho = x so that
     # products with rho normalise (no quotients in the polynomial tier)
     nm = S.fresh("at2p")
@@ -581,6 +600,8 @@ def arctan2(y, x):
                                    z3.Implies(x.t > 0, z3.And(v > -90, v < 90)), z3.Implies(z3.And(x.t < 0, y.t >= 0), v > 90),
                                    z3.Implies(z3.And(x.t < 0, y.t < 0), v < -90),
                                    z3.Implies(z3.And(x.t == 0, y.t > 0), v == 90), z3.Implies(z3.And(x.t == 0, y.t < 0), v == -90)])
+    S.log.append(("arctan2", y, x, r, (SReal(sv), SReal(cv)), rho))
+    cx.memo[mk] = (y.t, x.t, S.log[-1])
     return r
 
 
